@@ -1,0 +1,6 @@
+//go:build !verif
+
+package generator
+
+// vhook is a no-op unless built with -tags verif (see verif_hook_on.go).
+func vhook(event, path string) {}
